@@ -53,7 +53,7 @@ def fill_specs(draw, dtypes=('float64', 'complex128')):
     return {
         'kind': draw(st.sampled_from(['int', 'int', 'int', 'gauss'])),
         'seed': draw(st.integers(0, 2**20)),
-        'absent': draw(st.sampled_from([0, 0, 3, 6])),  # tenths
+        'absent': draw(st.sampled_from([0, 0, 2, 5])),  # tenths
         'zero': draw(st.sampled_from([0, 0, 0, 2])),
         'order': draw(st.sampled_from(['sorted', 'shuffled'])),
         'dt': draw(st.sampled_from(list(dtypes))),
@@ -80,7 +80,7 @@ def label_lists(draw, rank, allow_none=True):
 def tensor_specs(draw, npool, rank=None, max_rank=4, dtypes=('float64', 'complex128'), labels=True):
     r = rank if rank is not None else draw(st.integers(1, max_rank))
     legs = [[draw(st.integers(0, npool - 1)), draw(st.sampled_from([1, -1]))] for _ in range(r)]
-    qt = draw(st.one_of(st.integers(0, 50), st.just('arb')))
+    qt = draw(st.one_of(*([st.integers(0, 50)] * 7 + [st.just('arb')])))
     t = {'legs': legs, 'qt': qt, 'fill': draw(fill_specs(dtypes))}
     if qt == 'arb':
         t['qarb'] = draw(st.lists(st.integers(-2, 3), min_size=4, max_size=4))
